@@ -109,6 +109,11 @@ def generate(rng, tier, k):
                     cs = n // 300 + 1
                 utt["cs"] = cs
         utts.append(utt)
+    if rng.random() < 0.2:
+        # a single-precision application: every utterance of the history is float32 (otherwise dtypes are mixed, and two
+        # consecutive float32 utterances are rare)
+        for u_ in utts:
+            u_["signal"]["dtype"] = "float32"
     return {"cfg": cfg, "utterances": utts, "discarded_configs": discarded,
             # a second live computer of the same configuration, stepped between this one's calls (seed of its schedule)
             "co_tenant": rng.randrange(1, 1 << 30) if rng.random() < 0.12 else None}
